@@ -386,6 +386,11 @@ class SK(object):
                 a = a.val
             if isinstance(b, Tok) and b.kind == 'PH0' and isinstance(b.val, (int, float)):
                 b = b.val
+            # integral float literals (1.0, 2.0) are the integers they denote, so that 1.0 / degree and (1.0 - alpha) stay exact
+            if isinstance(a, float) and a.is_integer():
+                a = int(a)
+            if isinstance(b, float) and b.is_integer():
+                b = int(b)
             if op is o.truediv and isinstance(a, (int, Fraction)) and isinstance(b, (int, Fraction)) and not isinstance(a, bool) and not isinstance(b, bool) and b != 0:
                 return Fraction(a) / Fraction(b)
         if isinstance(a, Ord) and isinstance(b, Ord) and op is o.sub:
@@ -861,7 +866,7 @@ class SK(object):
 
 def math_fn(name, *a):
     import math
-    if len(a) == 1 and isinstance(a[0], Sym) and name in ('cos', 'sin', 'radians'):
+    if len(a) == 1 and isinstance(a[0], Sym) and name in ('cos', 'sin', 'radians', 'sqrt'):
         return Sym('%s(%r)' % (name, a[0].p))
     if any(isinstance(x, Tok) for x in a):
         return DEF()
@@ -914,7 +919,7 @@ def _sum(sk, n, x, *start):
     for y in x:
         if y is None or isinstance(y, list):
             raise Violation('SK2', 'placeholder %r in sum()' % (y,), n)
-    if any(isinstance(y, Sym) for y in x):
+    if sk.exact or any(isinstance(y, Sym) for y in x):
         acc = start[0] if start else 0
         for y in x:
             acc = sk.arith(o.add, acc, y, n)
